@@ -433,6 +433,10 @@ example : (demoWorld.runTx [.endFlash 0 7, .startFlash 0 7 0]).isSome = false :=
 example : (demoWorld.runTx [.startFlash 0 8 1, .endFlash 0 7]).isSome = false := by decide
 example : (demoWorld.runTx [.startFlash 0 7 2, .ix (.tick 0), .endFlash 0 7]).isSome = true := by decide
 
+/-- `WState.before` names real states: the end of that bracket finds the account flagged in-flash-loan, the start does not -/
+example : ((demoWorld.before [.startFlash 0 7 1, .endFlash 0 7] 1).bind (fun w => w.accts[0]?.map inFlash)) = some true := by decide
+example : ((demoWorld.before [.startFlash 0 7 1, .endFlash 0 7] 0).bind (fun w => w.accts[0]?.map inFlash)) = some false := by decide
+
 end whole_instructions
 
 end Mfi.Props.C11
